@@ -966,10 +966,73 @@ func (e *SpecEnv) quant(kind string, args []*Node) *SVal {
 		guard = "true"
 	}
 	b := e.fr.evalBool(body, n)
-	if kind == "forall" {
-		return boolVal("(forall ((" + bvq + " Int)) " + sImp(guard, b) + ")")
+	q := "(forall ((" + bvq + " Int)) " + sImp(guard, b) + ")"
+	if kind == "exists" {
+		q = "(exists ((" + bvq + " Int)) " + sAnd(guard, b) + ")"
 	}
-	return boolVal("(exists ((" + bvq + " Int)) " + sAnd(guard, b) + ")")
+	// Ground instances at the indices of the enclosing loops. (forall k. P) is equivalent to
+	// (forall k. P) && P[t], and (exists k. P) to (exists k. P) || P[t], so this is sound in
+	// either polarity; it spares the solver an E-matching step through offset arithmetic.
+	if len(args) == 4 && e.sumCtx == nil {
+		var insts []string
+		for _, t := range e.fr.loopIndexTerms() {
+			if hasBound(t) {
+				continue
+			}
+			m := e.with(args[0].Name, intVal(t))
+			lo, hi := e.intTerm(args[1]), e.intTerm(args[2])
+			g := sAnd(sLe(lo, t), sLt(t, hi))
+			bi := e.fr.evalBool(body, m)
+			if kind == "forall" {
+				insts = append(insts, sImp(g, bi))
+			} else {
+				insts = append(insts, sAnd(g, bi))
+			}
+		}
+		if len(insts) > 0 {
+			if kind == "forall" {
+				q = sAnd(append([]string{q}, insts...)...)
+			} else {
+				q = sOr(append([]string{q}, insts...)...)
+			}
+		}
+	}
+	return boolVal(q)
+}
+
+// loopIndexTerms: the current values of the index variables of the loops enclosing the block
+// being executed (range index + 1 for range loops).
+func (fr *Frame) loopIndexTerms() []string {
+	if fr.curBlock == nil || fr.loopsOf == nil {
+		return nil
+	}
+	var out []string
+	// headers dominating the current block (includes exit paths out of the loop body)
+	var hs []*ssa.BasicBlock
+	for d := fr.curBlock; d != nil; d = d.Idom() {
+		if fr.loops[d] != nil {
+			hs = append([]*ssa.BasicBlock{d}, hs...)
+		}
+	}
+	for _, h := range hs {
+		for _, in := range h.Instrs {
+			phi, ok := in.(*ssa.Phi)
+			if !ok {
+				break
+			}
+			v, ok := fr.vals[phi]
+			if !ok || v.F != nil || kindOf(v.T) != KInt {
+				continue
+			}
+			if phi.Comment == "rangeindex" {
+				out = append(out, sAdd(v.Term, "1"))
+			}
+		}
+	}
+	if len(out) > 2 {
+		out = out[len(out)-2:]
+	}
+	return out
 }
 
 // sum(k, lo, hi, term): uninterpreted prefix-sum function with ground unfolding at hi.
